@@ -31,6 +31,9 @@ pub struct Tape {
     replay: Option<Vec<u64>>,
     pos: usize,
     pub rec: Vec<u64>,
+    /// hash of the sequence of bounds asked for: two runs whose decisions were the same questions
+    /// in the same order have the same shape
+    pub shape: u64,
 }
 
 impl Tape {
@@ -40,6 +43,7 @@ impl Tape {
             replay: None,
             pos: 0,
             rec: Vec::with_capacity(256),
+            shape: 0xcbf29ce484222325,
         }
     }
 
@@ -49,6 +53,7 @@ impl Tape {
             replay: Some(tape),
             pos: 0,
             rec: Vec::with_capacity(256),
+            shape: 0xcbf29ce484222325,
         }
     }
 
@@ -76,7 +81,14 @@ impl Tape {
         };
         self.pos += 1;
         self.rec.push(v);
+        self.shape = (self.shape ^ n).wrapping_mul(0x100000001b3);
         v
+    }
+
+    /// Folds a milestone of the run into `shape` without drawing: two runs that asked the same
+    /// questions at different milestones are not the same run.
+    pub fn mark(&mut self, tag: u64) {
+        self.shape = (self.shape ^ tag.wrapping_mul(0x9E3779B97F4A7C15) ^ 0x5555).wrapping_mul(0x100000001b3);
     }
 
     /// Full 64-bit draw (for bit patterns).
@@ -87,6 +99,7 @@ impl Tape {
         };
         self.pos += 1;
         self.rec.push(v);
+        self.shape = (self.shape ^ u64::MAX).wrapping_mul(0x100000001b3);
         v
     }
 
